@@ -531,6 +531,43 @@ def heap_of(tokens_with_values, n_cells: int) -> List[Optional[List[float]]]:
     return heap
 
 
+def _defining_class(obj, name: str) -> str:
+    """the class of the object's MRO whose own body defines the property `name` (the code that runs)"""
+    for c in type(obj).__mro__:
+        if name in c.__dict__:
+            return "Shape" if c.__name__ == "Group" else c.__name__  # the harness' Group is a Shape by construction
+    return "?"
+
+
+def schema_tokens(e) -> List[str]:
+    """Post-order tokens of the real part tree for the schema check of the model (`c09.wf`): leaves as in the run
+    request (cell numbers do not matter), nodes with the class whose `parts` runs and the class whose `center` runs."""
+    from classy_blocks.construct.array import Array
+    from classy_blocks.construct.point import Point, Vector
+
+    out: List[str] = []
+
+    def rec(x):
+        if isinstance(x, Vector):
+            out.append("D0")
+        elif isinstance(x, Point):
+            out.append("P0")
+        elif isinstance(x, Array):
+            out.append("A" + ";".join("0" for _ in range(len(x.points))))
+        else:
+            k = kind_of(x)
+            valid = getattr(getattr(x, "function", None), "_valid", None) if k == "icurve" else None
+            parts = list(x.parts)
+            if valid is not None:
+                x.function._valid = valid
+            for p in parts:
+                rec(p)
+            out.append(f"N:{k}:0/1:{len(parts)}:{_defining_class(x, 'parts')}:{_defining_class(x, 'center')}")
+
+    rec(e)
+    return out
+
+
 # =========================================================================== output geometry of a real object
 def _edge_geom(p1, p2, data) -> dict:
     """What a block edge from p1 to p2 with this edge data looks like (the item classes of the library compute it)."""
@@ -1341,10 +1378,14 @@ class C09(core.Check):
         "relative tolerance, all other geometry with 1e-8",
     ]
     partial_note = (
-        "theorems cover the recursive delegation over an arbitrary part tree (heap model, NoAlias), the four point "
-        "primitives as similarities, default-origin equivariance of the modelled centre rules, copy independence, and "
-        "equivariance of the Origin/Angle arc constructions with square roots as witnesses; spline interpolation, "
-        "closest-parameter search of OnCurve edges and float rounding are checked by the oracle only"
+        "theorems cover the recursive delegation over an arbitrary part tree (heap model, NoAlias): transforming the "
+        "entity and reading its output geometry = transforming the output geometry as a value, for single calls and for "
+        "method chains / transformation lists of any length; the four point primitives as similarities; default-origin "
+        "equivariance of every transcribed centre rule (all entity kinds but EdgeData's constant centre) under the "
+        "entity schema, which is regenerated from the source's `parts` / `center` definitions; copy independence; "
+        "equivariance of the Origin/Angle arc constructions with square roots as witnesses. Spline interpolation, "
+        "closest-parameter search of OnCurve edges, float rounding, Shear, and the centres of Oval / spline sketches / "
+        "interpolated curves (observed values) are checked by the oracle only"
     )
 
     # ------------------------------------------------------------------ generators
@@ -1512,6 +1553,7 @@ class C09(core.Check):
             t0 = walk.tokens(ent, True)
             out["tree0"] = enc_tree([(t[0], t[1], len(t[2])) if t[0] == "A" else t for t in t0])
             out["aliased"] = walk.aliased()
+            out["schema0"] = schema_tokens(ent)
             n0 = walk.n_cells
             out["cells0"] = heap_of(t0, n0)
             try:
@@ -1615,7 +1657,8 @@ class C09(core.Check):
         req = f"c09.run {mode} {len(impl['cells0'])} {cells} {len(impl['tree0'])} " + " ".join(impl["tree0"])
         if steps:
             req += " " + " ".join(enc_step(s, oc) for s, oc in zip(steps, ocs))
-        return [req]
+        # the real tree against the model's entity schema (classes, slots, kinds): hypothesis `wfV` of the theorems
+        return [req, "c09.wf " + " ".join(impl["schema0"])]
 
     @staticmethod
     def _steps(case: dict, impl: Any) -> List[dict]:
@@ -1678,6 +1721,8 @@ class C09(core.Check):
             if ans == "degenerate" and (nan or "raised" in impl):
                 return None
             return f"degenerate parameters: model answers {ans[:60]}, implementation " + ("produces NaN" if nan else "produces finite values")
+        if len(model) > 1 and model[1] != "ok":
+            return f"the part tree of {impl['cls']} does not follow the model's entity schema: {model[1][:160]}"
         dec = dec_answer(ans)
         if dec is None:
             return f"model answers {ans[:120]}"
